@@ -65,6 +65,14 @@ def check_C11(tier, seed):
     else:
         models = [tab_model("import", 4, 0, ALL_STYLES, 4), tab_model("export", 4, 0, ALL_STYLES, 4), tab_model("import", 2, 1, ALL_STYLES)]
     run_tables(out, "C11", models)
+    # the round-trip clause on large instances (hundreds of items per dimension)
+    cases = [(201, 3, 0), (130, 2, 1), (40, 140, 0), (33000, 2, 0)] if tier == "quick" else \
+        [(201, 3, 0), (130, 2, 1), (40, 140, 0), (33000, 2, 0), (300, 5, 1), (2, 400, 0), (260, 130, 1), (2, 70000, 1)]
+    bad = core.replay_parallel(replay_tables.run_large_roundtrip, cases)
+    out.replayed += len(cases)
+    out.extra["large_instance_roundtrips"] = len(cases)
+    out.judge(core.for_property([({"op": "large", "ds": [], "wide": "", "styleid": 0, "faults": [], "case": c}, p) for c, p in bad], "C11"),
+              "tables_large", lambda v, p: {"engine": "tables_large", "case": str(v["case"])})
     out.exhaustive = True
     out.assumptions += ASSUME + ["to_df output (index True/False, every dimension as dim_to_columns by name or letter, sparse) is projected back "
                                  "to labelled rows and compared; round trips re-import the permuted / CSV'd frame"]
@@ -79,6 +87,13 @@ def check_C12(tier, seed):
         models = [tab_model("import", 3, 1, ALL_STYLES, 4), tab_model("import", 2, 2, {1, 2, 3, 4, 5}, 4), tab_model("import", 2, 2, {6, 7, 8, 9, 10}, 4),
                   tab_model("import", 1, 3, {1, 5, 8}, 2)]
     run_tables(out, "C12", models)
+    # the fault clauses on large instances (dimensions with hundreds / tens of thousands of items)
+    cases = [(151, 3, 0), (40, 140, 1), (33000, 2, 0)] if tier == "quick" else [(151, 3, 0), (40, 140, 1), (33000, 2, 0), (300, 130, 1), (2, 70000, 1)]
+    bad = core.replay_parallel(replay_tables.run_large_faulty, cases)
+    out.replayed += len(cases)
+    out.extra["large_instance_fault_cases"] = len(cases)
+    out.judge(core.for_property([({"op": "large", "ds": [], "wide": "", "styleid": 0, "faults": [], "case": c}, p) for c, p in bad], "C12"),
+              "tables_large", lambda v, p: {"engine": "tables_large", "case": str(v["case"])})
     out.exhaustive = True
     out.assumptions += ASSUME + ["faults: drop row, duplicate row (same or other values), relabel to an unknown item, blank cell, drop a "
                                  "dimension column, add a second value column, add a column for an unknown item - single faults in every "
